@@ -212,6 +212,41 @@ func Verif_C40_Ed25519() {
 	verifrt.Assert(!panicked && err != nil, "key of wrong size rejected without panic")
 }
 
+// Verif_C40_ParseSignature: the wire form string(string(format) || string(blob) || extra) ||
+// after, with format from c40Format, blob 2 symbolic bytes, extra and after 0..2 symbolic bytes
+// each: parseSignature accepts iff extra is empty or the format is one of the security-key
+// formats (whose flags||counter trail the blob and land in Rest); format, blob, Rest and the
+// unparsed remainder are returned as received; Marshal of the result restores the inner bytes.
+func Verif_C40_ParseSignature() {
+	format := c40Format()
+	blob := verifrt.Bytes(2)
+	extra := verifrt.Bytes(verifrt.Choose(0, 2))
+	after := verifrt.Bytes(verifrt.Choose(0, 2))
+	str := func(b []byte) []byte {
+		n := len(b)
+		return append([]byte{byte(n >> 24), byte(n >> 16), byte(n >> 8), byte(n)}, b...)
+	}
+	body := append(append(str([]byte(format)), str(blob)...), extra...)
+	wire := append(str(body), after...)
+	var sig *Signature
+	var rest []byte
+	var ok bool
+	panicked := verifrt.Panics(func() { sig, rest, ok = parseSignature(wire) })
+	verifrt.Assert(!panicked, "parseSignature does not panic")
+	isSK := format == KeyAlgoSKED25519 || format == KeyAlgoSKECDSA256 || format == CertAlgoSKED25519v01 || format == CertAlgoSKECDSA256v01
+	verifrt.Assert(ok == (len(extra) == 0 || isSK), "trailing data inside the signature is rejected unless the format is a security-key format")
+	if !ok {
+		verifrt.Reach("sig-rejected")
+		return
+	}
+	verifrt.Assert(sig.Format == format && string(sig.Blob) == string(blob) && string(sig.Rest) == string(extra), "format, blob, rest as received")
+	verifrt.Assert(string(rest) == string(after), "remainder after the signature returned")
+	verifrt.Assert(string(Marshal(sig)) == string(body), "Marshal restores the signature body")
+	if isSK && len(extra) > 0 {
+		verifrt.Reach("sk-rest")
+	}
+}
+
 // c40SKBlob is PROTOCOL.u2f's signed message: SHA256(application) || flags || counter ||
 // SHA256(data).
 func c40SKBlob(app string, flags byte, counter uint32, data []byte) []byte {
